@@ -1,7 +1,7 @@
 // Conformance driver for C05 (path-pattern matching).
 //  sweep <patterns.ndjson> <maxlen> <out.ndjson>
 //     every pattern (abstract form + rendered name from TLC) x EVERY address over the 11-symbol
-//     alphabet {a b c 0 1 2 9 / # { }} up to maxlen: rtosc_match_path; and x 9 type strings:
+//     alphabet {a b : 0 1 2 9 / # { }} up to maxlen: rtosc_match_path; and x 9 type strings:
 //     rtosc_match on a real message.  Logged: the set of matched addresses (per type string).
 //  random <seed> <count> <out.ndjson>
 //     larger random patterns (up to 6 segments, long literals, N up to 1e8, indices with leading
@@ -12,7 +12,7 @@
 #include "vjson.hpp"
 #include "vguard.hpp"
 
-static const char ALPHA[] = {'a', 'b', 'c', '0', '1', '2', '9', '/', '#', '{', '}'};
+static const char ALPHA[] = {'a', 'b', ':', '0', '1', '2', '9', '/', '#', '{', '}'};
 static const char *TAGS[9] = {"", "i", "f", "if", "ii", "fi", "s", "iff", "T"};
 
 static size_t build_msg(char *buf, size_t cap, const std::string &addr, const char *tags) {
